@@ -126,6 +126,11 @@ pub fn run_history(input: &[u8], cfg: &Cfg, steps: &[Step], recover_at: &[usize]
 fn check_history(ctx: &mut Ctx, input: &[u8], cfg: &Cfg, steps: &[Step], recover_at: &[usize], origin: &str) -> usize {
     let d = || format!("{} input={} {} steps={:?} try_recover_at_ops={:?}", origin, hex(input), cfg.short(), steps, recover_at);
     if !ctx.enter(&d) {
+        // replay modes: the caller sizes its enumeration by the length of the plain history, which must therefore
+        // not depend on whether this case was executed
+        if steps.is_empty() && recover_at.is_empty() {
+            return run_history(input, cfg, steps, recover_at).events.len();
+        }
         return 0;
     }
     let h = run_history(input, cfg, steps, recover_at);
@@ -227,7 +232,7 @@ pub fn run(ctx: &mut Ctx) {
     ctx.meta("rule", "cases: API histories on the real iterator over a scripted source. (A) every Σ string up to length nA and every sequence of <= L adversarial header tokens (zero-length numerics, 8-byte ids/sizes, all-ones sizes, sizes of 2^56-2 and 5 GB) x a configuration lattice (8 tolerance subsets x buffered sets x capacities {default,0,3,16} x size limits {default,5,none} x EOF closing on/off): next() until None, then 3 more calls (fused), or <= 3 calls after an error. (B) every Σ string up to length nB and every token x {strict, all tolerated, buffered} x try_recover() replacing next() at every set of <= 2 op positions (incl. before the first next and after None) x an injected source error at read k (<= 2 per history) x short reads. Oracle: every call returns (catch_unwind + watchdog), successful items <= 2*len+12, fused after None with the source exhausted, each injected error surfaces exactly once as ReadError with its message, try_recover fails only with UnexpectedEOF/ReadError. Non-trivial: histories with an error or a recover call.");
     ctx.meta("bounds", &format!("nA={} nB={} token sequences L<={}; <=2 try_recover calls, <=2 injected errors", n_a, n_b, ctx.tier.pick(2, 2)));
     ctx.meta("assumptions", "post-error output is unconstrained except for panics (at most 3 further calls are made) || 64 KiB size limit is not applied here: declared sizes above the limit are rejected by the library before allocation (C17), sizes below it with missing payload allocate what they declare");
-    for c in ["recover_ok", "injected_errors_served"] {
+    for c in ["recover_ok", "injected_errors_served", "long_inputs"] {
         ctx.expect_nonzero(c);
     }
     let cfgs = configs(quick);
@@ -322,6 +327,45 @@ pub fn run(ctx: &mut Ctx) {
     for (i, dct) in docs.iter().enumerate() {
         if ctx.mine(i as u64) {
             run_b(ctx, dct, "junk-doc");
+        }
+    }
+    ctx.checkpoint();
+    // (C) long inputs: call depth must not grow with the number of elements (a stack overflow aborts the worker
+    // and is reported by the supervisor as "library call did not return")
+    {
+        let n = ctx.tier.pick(60_000usize, 200_000);
+        let mut longs: Vec<(String, Vec<u8>, Cfg)> = Vec::new();
+        let mk = |outer: &[u8], elem: &[u8], n: usize| {
+            let mut v = outer.to_vec();
+            for _ in 0..n {
+                v.extend_from_slice(elem);
+            }
+            v
+        };
+        let big = Cfg { allow: 0, buffered: vec![], cap: None, max_size: MaxSize::Unlimited, eof_end: true };
+        for (name, elem) in [("empty known-size M", &[0x8d, 0x80][..]), ("unknown-size M", &[0x8d, 0xff][..]), ("known-size M[MU]", &[0x8d, 0x83, 0x8e, 0x81, 0x01][..]), ("unknown-size M[MU]", &[0x8d, 0xff, 0x8e, 0x81, 0x01][..]), ("leaf U", &[0x82, 0x81, 0x01][..])] {
+            for (bname, set) in [("unbuffered", vec![]), ("M buffered", vec![ID_M]), ("Root and M buffered", vec![ID_ROOT, ID_M])] {
+                let bytes = mk(&[0x81, 0xff], elem, n);
+                longs.push((format!("Root(unknown size)[{} x {}] {}", n, name, bname), bytes, big.clone().with_buffered(&set)));
+            }
+        }
+        for (i, (name, bytes, cfg)) in longs.iter().enumerate() {
+            if !ctx.mine(i as u64) {
+                continue;
+            }
+            let d = || format!("long input: {} ({} bytes) {}", name, bytes.len(), cfg.short());
+            if !ctx.enter(&d) {
+                continue;
+            }
+            ctx.count("long_inputs", 1);
+            ctx.nontrivial();
+            let obs = crate::obs::parse_slice::<V>(bytes, cfg);
+            ctx.transitions += obs.items.len() as u64 + 1;
+            if !obs.clean() {
+                ctx.violation("long-input/does-not-parse-cleanly", &d, &format!("{} items then {}", obs.items.len(), obs.term.short()));
+            }
+            ctx.validated += 1;
+            ctx.leave();
         }
     }
 }
